@@ -119,8 +119,11 @@ class FakeSocket(object):
     return len(d)
 
   def send(self, buf):
-    self.sendall(buf)
-    return len(buf)
+    # like a real socket, send() may take only part of the buffer (net.send_max bytes at most)
+    m = self.net.send_max
+    n = len(buf) if not m else min(len(buf), m)
+    self.sendall(bytes(buf[:n]))
+    return n
 
   def sendall(self, buf):
     if self.closed:
@@ -241,6 +244,7 @@ class SimNet(object):
     self.gate = None       # fn(sock, bytes) -> Event | None
     self.chunker = None    # fn(sock, avail, want) -> n
     self.on_connect = None # fn(sock): called when a connect attempt starts
+    self.send_max = None   # most bytes one send() call accepts (sendall always takes everything)
     self.stall = None      # fn(sock, data, send_index) -> None | (k bytes, seconds)
     self.sockets = []
 
